@@ -22,7 +22,8 @@
 #   * len() before a flush (may over-count pending duplicates)          -> counter len_differs_before_flush
 #   * the content of an object after to_native() without copy (group markers are written into it)
 #   * a bare `-isystem` that is not followed by a directory operand      -> skipped_unspecified (native part)
-#   * absolute paths given to append_direct/extend_direct (de-duplicated "when safe"): not in the alphabet
+#   (absolute paths given to append_direct/extend_direct are covered by one absolute library path, alone and in
+#    two-element batches with every other argument)
 #
 # Checked independently of the reference list (from the operation history only): no argument lost or invented,
 # non-dedupable arguments keep relative order and multiplicity, the later-added of duplicated settings wins.
@@ -44,15 +45,20 @@ ONCE = Kind(False, False, True)          # -lfoo, library file
 PLAIN = Kind(False, False, False)        # anything else: never de-duplicated, never reordered
 
 ALPHA = ['-Ia', '-Ib', '-La', '-Dx', '-Ux', '-isystemq', '-lfoo', 'libz.a', '-Wall']
+# an absolute path to a library: only ever given to append_direct/extend_direct, whose contract is "no reordering or
+# de-dup except for absolute paths, which can always be de-duped safely" = the ordinary append for that one element
+ABS = '/q/libq.a'
 KINDS = {
     'clike': {'-Ia': FRONT_OVR, '-Ib': FRONT_OVR, '-La': FRONT_OVR, '-Dx': BACK_OVR, '-Ux': BACK_OVR,
               '-isystemq': BACK_OVR, '-lfoo': ONCE, 'libz.a': ONCE, '-Wall': PLAIN},
     # The base class declares no prepend/override prefixes at all; only library *files* are once-only.
     'base': {a: (ONCE if a == 'libz.a' else PLAIN) for a in ALPHA},
 }
+for _k in KINDS.values():
+    _k[ABS] = ONCE
 # settings that contradict each other: the later-added one must take effect (come last)
 SAME_SETTING = [('-Dx', '-Ux')]
-ENC = {a: chr(97 + i) for i, a in enumerate(ALPHA)}
+ENC = {a: chr(97 + i) for i, a in enumerate(ALPHA + [ABS])}
 DEC = {v: k for k, v in ENC.items()}
 
 
@@ -74,6 +80,12 @@ def build_ops(alpha):
     for a in alpha:
         for b in alpha:
             ops.append(('iadd', (a, b)))
+    # direct insertion of an absolute path, alone and inside a batch on either side of every other argument
+    ops.append(('append_direct', (ABS,)))
+    ops.append(('extend_direct', (ABS, ABS)))
+    for a in alpha:
+        ops.append(('extend_direct', (ABS, a)))
+        ops.append(('extend_direct', (a, ABS)))
     return ops
 
 
@@ -174,13 +186,16 @@ def ref_step(model, op, kinds):
     if n in ('iadd', 'append', 'extend'):
         return ref_batch(model, a, kinds)
     if n in ('append_direct', 'extend_direct'):
-        return model + list(a)          # direct insertion: nothing else (alphabet has no absolute paths)
+        out = list(model)
+        for x in a:                     # element by element: an absolute path is an ordinary append, anything else goes in as is
+            out = ref_batch(out, (x,), kinds) if os.path.isabs(x) else out + [x]
+        return out
     if n == 'insert0':
         return [a[0]] + model
     return model                        # copy and the observers change nothing
 
 
-LIBS = frozenset(['-lfoo', 'libz.a', '/q/libq.so.1', '-Wl,-lbar'])
+LIBS = frozenset(['-lfoo', 'libz.a', '/q/libq.so.1', '-Wl,-lbar', ABS])
 
 
 def ref_is_default_dir(d):
